@@ -164,8 +164,13 @@ def _nfield(xs, dt='int32', h5=False):
     return f
 
 
-def _ifield(strs):
-    f = _fld.IndexedStringMemField(_S)
+def _ifield(strs, h5=False):
+    if h5:
+        df = _h5_frame()
+        _H5['n'] += 1
+        f = df.create_indexed_string('s%d' % _H5['n'])
+    else:
+        f = _fld.IndexedStringMemField(_S)
     if strs is not None:
         f.data.write([bytes(s).decode('utf-8') for s in strs])
     return f
@@ -221,7 +226,7 @@ class _patched:
 def _payload(kind, col, form, h5=False, dt='int32'):
     """kind 'n' numeric / 'i' indexed string;  form 'a' ndarray / 'f' field"""
     if kind == 'i':
-        return _ifield(col)
+        return _ifield(col, h5)
     return _tarr(col, dt) if form == 'a' else _nfield(col, dt, h5)
 
 
@@ -331,12 +336,17 @@ def _run(case, op, np, ops, S):
         vdt = case.get('vdt', 'int32')
         col = _tcol if case.get('typed') else _col
         vals = _tarr(case['vals'], vdt) if case['form'] == 'a' else _nfield(case['vals'], vdt)
+        kw = {}
+        if case.get('sp'):
+            # the caller supplies the spans of the foreign-key indices (rarely used argument)
+            xs = case['fk']
+            kw['fkey_index_spans'] = np.asarray([k for k in range(len(xs)) if k == 0 or xs[k] != xs[k - 1]] + [len(xs)], dtype=np.int64)
         if case['writer']:
             w = _nfield(None, vdt)
-            r = S.join(pk, fk, vals, writer=w)
+            r = S.join(pk, fk, vals, writer=w, **kw)
             assert r is None
             return col(w)
-        return col(S.join(pk, fk, vals))
+        return col(S.join(pk, fk, vals, **kw))
     raise ValueError(op)
 
 
@@ -378,7 +388,8 @@ def _run_oml(case, np, ops, S):
         mp = _reg(case, 'map', 0, lambda: _nfield(None, 'int64', h5))
     lu, ru = bool(case['lu']), bool(case['ru'])
     g = lambda x: _arg(x, grp)
-    gt = lambda t: None if t is None else tuple(g(x) for x in t)
+    seq = list if case.get('lst') else tuple            # the payload / sink collections as lists
+    gt = lambda t: None if t is None else seq(g(x) for x in t)
     with _patched(case.get('cs')):
         if case.get('swap'):
             ret = S.ordered_merge_right(g(R), g(L), left_field_sources=gt(srcs), right_field_sinks=gt(sinks),
@@ -398,21 +409,22 @@ def _run_omi(case, np, ops, S):
     fa = 'a' if form in ('a', 'as') else 'f'
     La, kd = _keys(case, case['L'])
     Ra, _ = _keys(case, case['R'])
-    L = La if fa == 'a' else _nfield(La, kd)
-    R = Ra if fa == 'a' else _nfield(Ra, kd)
+    h5 = bool(case.get('h5'))
+    L = La if fa == 'a' else _nfield(La, kd, h5)
+    R = Ra if fa == 'a' else _nfield(Ra, kd, h5)
     ldt = case.get('ldt') or ['int32'] * len(case['lsrcs'])
     rdt = case.get('rdt') or ['int32'] * len(case['rsrcs'])
     _cols_ = (lambda t: None if t is None else [_tcol(x) for x in t]) if case.get('typed') else _cols
-    ls = tuple(_payload('n', c, fa, False, d) for c, d in zip(case['lsrcs'], ldt))
-    rs = tuple(_payload('n', c, fa, False, d) for c, d in zip(case['rsrcs'], rdt))
+    ls = tuple(_payload('n', c, fa, h5, d) for c, d in zip(case['lsrcs'], ldt))
+    rs = tuple(_payload('n', c, fa, h5, d) for c, d in zip(case['rsrcs'], rdt))
     lsk = rsk = None
     if form == 'as':
         n = case['n']
         lsk = tuple(np.full(n, case.get('fill', 0), dtype=d) for d in ldt)
         rsk = tuple(np.full(n, case.get('fill', 0), dtype=d) for d in rdt)
     elif form == 'fs':
-        lsk = tuple(_nfield(None, d) for d in ldt)
-        rsk = tuple(_nfield(None, d) for d in rdt)
+        lsk = tuple(_nfield(None, d, h5) for d in ldt)
+        rsk = tuple(_nfield(None, d, h5) for d in rdt)
     ret = S.ordered_merge_inner(L, R, left_field_sources=ls, left_field_sinks=lsk,
                                 right_field_sources=rs, right_field_sinks=rsk,
                                 left_unique=bool(case['lu']), right_unique=bool(case['ru']))
@@ -431,20 +443,21 @@ def _run_merge(case, np, ops, S):
     op, form = case['op'], case['form']
     La, kd = _keys(case, case['L'])
     Ra, _ = _keys(case, case['R'])
-    L = La if form == 'a' else _nfield(La, kd)
-    R = Ra if form == 'a' else _nfield(Ra, kd)
+    h5 = bool(case.get('h5'))
+    L = La if form == 'a' else _nfield(La, kd, h5)
+    R = Ra if form == 'a' else _nfield(Ra, kd, h5)
     typed = bool(case.get('typed'))
 
     def pdt(p):
         return p[2] if len(p) > 2 else 'int32'
 
     def pays(ps):
-        return tuple(_payload(p[0], p[1], form, False, pdt(p)) for p in ps)
+        return tuple(_payload(p[0], p[1], form, h5, pdt(p)) for p in ps)
 
     def writers(ps):
         if not case['wr']:
             return None
-        return tuple(_ifield(None) if p[0] == 'i' else _nfield(None, pdt(p)) for p in ps)
+        return tuple(_ifield(None, h5) if p[0] == 'i' else _nfield(None, pdt(p), h5) for p in ps)
 
     def col(x):
         if typed and not (isinstance(x, _fld.Field) and x.indexed):
@@ -846,6 +859,9 @@ def features(case, model):
         if any(abs(v) > (1 << 53) for v in allv): f.append('payload-value-beyond-2^53')
     if case.get('km'): f.append('keymap:' + case['km'])
     if case.get('grp'): f.append('h5py-group-arguments')
+    if case.get('lst'): f.append('payloads-and-sinks-as-lists')
+    if case.get('sp'): f.append('join:caller-supplied-spans')
+    if case.get('h5') and case['op'] != 'oml': f.append('hdf5-backed-fields')
     if case.get('reg'):
         r = case['reg']
         flat = [r.get('L'), r.get('R')] + list(r.get('srcs') or [])
@@ -1281,6 +1297,33 @@ def _gen_typed(big, rng):
             cnt += 1
             L, R = KP[cnt % len(KP)]
             yield _toml(L, R, [d, 'int64'], form, mapk, cs, h5=1, grp=1, swap=cnt % 2, lu=(cnt % 2 if _strict(L) else 0))
+    # payloads and sinks given as lists instead of tuples
+    for fi, (form, mapk, cs) in enumerate(TFORMS):
+        cnt += 1
+        L, R = KP[cnt % len(KP)]
+        yield _toml(L, R, [DTYPES[cnt % len(DTYPES)], DTYPES[(cnt + 6) % len(DTYPES)]], form, mapk, cs, lst=1)
+    # longer columns (structured random): several chunks of keys, payload and map at small chunk sizes, runs of equal left
+    # keys ending at chunk ends, 1..4 payloads of random dtypes, every form
+    for _ in range(4000 if big else 700):
+        cs = rng.randint(1, 6)
+        key, L, R = 0, [], []
+        tl, tr = rng.randint(0, 5 * cs), rng.randint(0, 5 * cs)
+        while len(L) < tl:
+            key += rng.choice([1, 1, 2])
+            L.extend([key] * rng.choice([1, 1, 1, 2, max(1, cs - 1), max(1, cs - 2)]))
+        key = 0
+        while len(R) < tr:
+            key += rng.choice([1, 1, 2]); R.append(key)
+        sdt = [rng.choice(DTYPES) for _ in range(rng.choice([1, 2, 2, 3, 4]))]
+        form, mapk, cs_ = rng.choice(TFORMS[:4] * 3 + TFORMS)
+        kw = {}
+        if rng.random() < 0.2 and max(L + R + [0]) <= KMAP_MAXSYM:
+            kw['km'] = rng.choice(list(KMAPS))
+        if form in ('f', 'fs') and rng.random() < 0.1:
+            kw['h5'] = 1
+        yield _toml(L, R, sdt, form, mapk, (cs if cs_ is not None else None) if (form, mapk) == ('fs', 'f') else None,
+                    lu=1 if _strict(L) and rng.random() < 0.5 else 0, offs=[rng.randrange(12) for _ in sdt],
+                    swap=rng.randint(0, 1), **kw)
     # arguments outside the precondition: fewer / more sinks than sources (model == impl only)
     yield _toml([0, 1], [0, 2], ['int32', 'float64'], 'fs', 'f', 2, kdt=['int32'])
     yield _toml([0, 1], [0, 2], ['int32'], 'fs', 'n', None, kdt=['int32', 'int64'])
@@ -1329,11 +1372,21 @@ def _gen_typed(big, rng):
                     if form == 'f':
                         lp.append(['i', _istr(len(L), 1)]); rp.insert(1, ['i', _istr(len(R), 0)])
                     yield {'op': op, 'typed': 1, 'L': L, 'R': R, 'form': form, 'wr': cnt % 2, 'lp': lp, 'rp': rp}
+                    if form == 'f' and (big or cnt % 3 == 0):
+                        yield {'op': op, 'typed': 1, 'L': L, 'R': R, 'form': form, 'wr': (cnt // 3) % 2, 'lp': lp, 'rp': rp, 'h5': 1}
         for fk in ([0, 1, 1, 2], [2, INV64, 0, 0], []):
             for form in 'af':
                 cnt += 1
                 yield {'op': 'join', 'typed': 1, 'n': 3, 'fk': fk, 'vals': _tsrc(_nruns(fk), d), 'vdt': d, 'form': form,
                        'writer': cnt % 2}
+                yield {'op': 'join', 'typed': 1, 'n': 3, 'fk': fk, 'vals': _tsrc(_nruns(fk), d), 'vdt': d, 'form': form,
+                       'writer': (cnt + 1) % 2, 'sp': 1}
+        for form in ('a', 'as', 'f', 'fs'):
+            cnt += 1
+            L, R = (([0, 1, 1, 3], [1, 1, 2, 3]), ([0, 2, 4], [0, 1, 2, 4]))[cnt % 2]
+            if form in ('f', 'fs'):
+                yield {'op': 'omi', 'typed': 1, 'L': L, 'R': R, 'lu': 0, 'ru': 0, 'n': _n_inner(L, R), 'form': form, 'h5': 1,
+                       'ldt': [d, d2], 'rdt': [d2], 'lsrcs': [_tsrc(len(L), d), _tsrc(len(L), d2, 4)], 'rsrcs': [_tsrc(len(R), d2, 1)]}
     # ---- indexed-string payloads whose characters are not bytes, and entries of 255 / 256 / 257 and more bytes
     strs = [list(x) for x in ('é'.encode(), '男'.encode(), '\U0001F600'.encode(), b'a' * 255, b'b' * 256, ('é' * 128).encode(),
                               b'c' * 257, b'', 'Zoë'.encode(), b'd' * 300, ('女' * 90).encode(), b'e')]
@@ -1506,6 +1559,26 @@ def _gen_hot(big, rng):
                 yield {'op': 'hist', 'calls': [c, c2]}
             else:
                 yield c
+        # the other entry points with column lengths around K (K small enough for the quadratic specification)
+        if K <= 400:
+            for n in sorted(set(max(0, x) for x in (K - 1, K, K + 1, 2 * K, 2 * K + 1))):
+                for v in range(3 if big else 2):
+                    L = sorted(rng.randint(0, n) for _ in range(n))
+                    R = sorted(rng.randint(0, n) for _ in range(max(0, n + rng.choice([-1, 0, 1]))))
+                    d = rng.choice(DTYPES)
+                    yield {'op': 'omi', 'typed': 1, 'L': L, 'R': sorted(set(R)), 'lu': 0, 'ru': 1, 'n': _n_inner(L, sorted(set(R))),
+                           'form': rng.choice(['a', 'as', 'f', 'fs']), 'ldt': [d], 'rdt': ['int64'],
+                           'lsrcs': [_tsrc(len(L), d)], 'rsrcs': [_tsrc(len(set(R)), 'int64', 2)]}
+                    Lu = [rng.randint(0, n) for _ in range(n)]
+                    Ru = [rng.randint(0, n) for _ in range(n)]
+                    op = rng.choice(['ml', 'mr', 'mi'])
+                    yield {'op': op, 'typed': 1, 'L': Lu, 'R': Ru, 'form': 'f', 'wr': rng.randint(0, 1),
+                           'lp': [['n', _tsrc(len(Lu), d), d], ['i', _istr(len(Lu), 1)]],
+                           'rp': [['i', _istr(len(Ru), 0)], ['n', _tsrc(len(Ru), d, 3), d]]}
+                    yield {'op': 'gi', 'T': Ru, 'F': Lu, 'form': 'af'[v % 2], 'dest': 'naf'[v % 3]}
+                    fk = sorted(rng.randint(0, max(0, n - 1)) for _ in range(n)) if n else []
+                    yield {'op': 'join', 'typed': 1, 'n': n, 'fk': fk, 'vals': _tsrc(_nruns(fk), d), 'vdt': d, 'form': 'af'[v % 2],
+                           'writer': v % 2}
 
 
 def _gen_changed(big, rng):
@@ -1628,9 +1701,26 @@ RULE = ('exhaustive over order-types: every pair of non-decreasing key sequences
         'pre-filled destination arrays, empty payload tuple) are compared with the model only; plus seeded random longer '
         'cases with runs of equal left keys planted at chunk ends. Memory-backed fields (no HDF5 file per case). '
         'merge_inner is compared up to one consistent permutation of the output rows (pandas does not promise more). '
-        'Non-trivial = at least one matched or unmatched key / missing key / invalid index is present.')
+        'Non-trivial = at least one matched or unmatched key / missing key / invalid index is present. '
+        'ELEMENT TYPES: every numeric dtype (int8..int64, uint8..uint64, bool, float32, float64; values at the extremes of '
+        'the dtype, beyond 2^31 / 2^53, fractions, NaN, -0.0, +-inf, compared by bit pattern together with the dtype of the '
+        'returned column) alone in each of the 11 argument forms, every ordered PAIR of dtypes in one call (streamed at chunk '
+        'sizes 1, 2 and the default, two in-memory forms, HDF5-backed), triples (thorough: all 1331), 4..8 payloads, sinks '
+        'wider than their source, for ordered_merge_left/right; every ordered dtype pair for ordered_merge_inner; every dtype '
+        'for merge_left/right/inner and join. KEY COLUMNS of every integer/float dtype and at the ends of their range '
+        '(16 strictly increasing key maps incl. neighbours beyond 2^53, values equal modulo 2^32, the uint64 sign bit). '
+        'HISTORIES: several calls on one Session in one case — every ordered pair of payload dtypes in two successive '
+        'streamed calls, every ordered pair of 13 call templates (all entry points), the same call twice with fresh or '
+        'shared argument objects, chained merges where the sink and the map field of one call are payloads of the next, '
+        'growing and shrinking lengths. ALIASING: a payload that is the right key column, one payload object in two '
+        'positions, left key = right key. h5py.Group arguments. Indexed-string payloads with multi-byte characters and '
+        'entries of 255/256/257+ bytes. ops.DEFAULT_CHUNKSIZE is set to the case\'s chunk size together with the wrapped '
+        'chunksize defaults. CHANGE-DIRECTED: small integer literals new in the tree under test become chunk sizes, column '
+        'lengths, run lengths and payload counts; a changed source file adds 1500 (thorough 6000) random typed cases.')
 EXHAUSTIVE = {'quick': True, 'thorough': True}
 TRUSTED = ['numba code generation; numpy fancy indexing / boolean masks; MemoryField write / write_part (modelled as append)',
+           'key columns: the model joins the key SYMBOLS, the real call their image under a strictly increasing map into the key '
+           'dtype (the kernels only compare keys); payload values are integers / IEEE bit patterns on both sides',
            'pandas.merge(how=left) = rows of the relational left join in order, pandas.merge(how=inner) = some permutation of '
            'the matching pairs — explicit premises of the merge_* theorems, exercised here on every generated key pair',
            'Python dict semantics in get_index (modelled as an association list, newest binding first)',
@@ -1638,12 +1728,20 @@ TRUSTED = ['numba code generation; numpy fancy indexing / boolean masks; MemoryF
            'default 2^20 is run on the real code and compared with the model at a chunk size just beyond both inputs '
            '(equal by the chunking-independence theorems)']
 ASSUMPTIONS = ['ordered_* forms: keys sorted ascending, uniqueness flags truthful, right key unique (the call rejects anything else)',
+               'a sink has the dtype of its source, or is an integer sink wide enough for every value of an integer/bool source '
+               '(conversions from/to floating point and narrowing are not modelled and not generated); ndarray sinks have the '
+               'source dtype (numba cannot compile map_valid for two different array types: observation O-C19f)',
+               'key columns of both sides have the same dtype; float keys are not NaN',
                'ndarray destination arrays are zero-initialised by the caller',
                'streamed form: no run of equal left keys as long as the chunk size (2^20 in production) — otherwise the documented ValueError',
                'fewer than 2^62 rows (INVALID_INDEX is not a row number); payload columns have the length of their key column']
 TECHNIQUE = ('Coq proof (faithful model of the kernels, Session plumbing and — reused from C03/C04 — the streamed generators '
              '= relational join + payload mapping) + exhaustive small-scope differential correspondence against the repository')
-LEVEL_TEXT = ('26 theorems in coq/Props/C19.v (all closed under the global context) about the Gallina model '
+LEVEL_TEXT = ('6 theorems in coq/Props/C19_typed.v about coq/Model/SessionMergeTyped.v (element types: every payload of a '
+              'call is mapped on its own, in the dtype its argument form prescribes, whatever the other payloads, sinks and '
+              'earlier calls: ordered_merge_left_typed_inmemory_correct / _streamed_correct / _payloads_independent, '
+              'session_history_call_alone) and '
+              '26 theorems in coq/Props/C19.v (all closed under the global context) about the Gallina model '
               'coq/Model/SessionMerge.v: the six non-streamed kernels equal the relational left/inner join for all sorted '
               'inputs; Session.ordered_merge_left/right return left_payload in every in-memory form and in the streamed form '
               'for every chunk size (both-unique: always; right-unique: or the documented long-run ValueError), all forms '
